@@ -748,8 +748,13 @@ def c17(run):
                 run.violation({"kind": "class", "method": meth}, "%s on an unknown pid raised %s, documented class is %s" % (meth, gi, want), {"method": meth, "args": v})
             # an unsupported algorithm name, all other arguments well-formed (possibly mismatching the content): UnsupportedAlgorithm, nothing touched
             algpos = {"store_object": [2, 4], "delete_if_invalid_object": [2], "get_hex_digest": [1]}.get(meth, [])
-            wellformed = all((v[i] in valid or v[i][0] == "I" and int(v[i][1:]) >= 1 or (v[i][0] == "S" and len(v[i]) > 20)) for i in range(len(v)) if i not in algpos) \
-                if (valid := METHODS[meth][0]) else False
+            valid = METHODS[meth][0]
+            sizepos = {"store_object": 5, "delete_if_invalid_object": 3}.get(meth)
+            ckpos = {"store_object": 3, "delete_if_invalid_object": 1}.get(meth)
+            wellformed = all(v[i] == valid[i]
+                             or (i == sizepos and v[i][0] == "I" and int(v[i][1:]) >= 1)
+                             or (i == ckpos and v[i][0] == "S" and len(v[i]) > 20)
+                             for i in range(len(v)) if i not in algpos)
             if any(v[i] in bad_algo for i in algpos) and all(v[i] in bad_algo or v[i] in ("N", valid[i]) for i in algpos) and wellformed \
                     and not (meth == "store_object" and v[4] in bad_algo and v[3] == "N"):
                 if gi != "UnsupportedAlgorithm" or changed:
